@@ -222,4 +222,81 @@ example :
       checkEntry P = true ∧ checkAllocShape [(257, 256)] = true := by
   decide +kernel
 
+/-- **C01 (preservation from the entry of the function).** `accepted_preserves` with its initial-state premise
+discharged by `entry_rel`: the function reads only register bytes it has written (`checkEntry`), the allocation has
+the right shape, and both executions start at the first instruction with the same memory and the same contents of
+the *physical* registers — whatever the private storage of the virtual registers holds. -/
+theorem accepted_preserves_from_entry (P : CProg) (A : List (Nat × Nat))
+    (sems : Nat → List Val → Mem → List Val × Mem × Nat)
+    (hpf : checkPostFix P = true) (hv : checkValid P A = true) (he : checkEntry P = true)
+    (hs : checkAllocShape A = true) (hwf : WFSem (toProg P sems)) (σ σ' : State Loc)
+    (hpc : σ.pc = some 0) (hpc' : σ'.pc = some 0) (hmem : σ.mem = σ'.mem)
+    (hphys : ∀ ℓ : Loc, idIsVirtual ℓ.1 = false → σ.regs ℓ = σ'.regs ℓ) (k : Nat) :
+    (run (toProg P sems) k σ).mem = (run (rename (ρ A) (toProg P sems)) k σ').mem ∧
+    (run (toProg P sems) k σ).pc = (run (rename (ρ A) (toProg P sems)) k σ').pc :=
+  accepted_preserves P A sems hpf hv hwf σ σ' (entry_rel P A he hs σ σ' hpc hpc' hmem hphys) k
+
+/-- Non-vacuity of `accepted_preserves_from_entry`: the two-instruction program of the example above, an
+instruction meaning that returns one value per definition, and one initial state used for both executions. -/
+example :
+    let P : CProg := #[⟨[], [⟨257, 15⟩], [some 1], [(65792, 15)], [(257, 15), (65792, 15)]⟩,
+                      ⟨[⟨257, 15⟩, ⟨65792, 15⟩], [], [none], [(257, 15), (65792, 15)], []⟩]
+    let sems : Nat → List Val → Mem → List Val × Mem × Nat :=
+      fun n vs m => (List.replicate ((P.getD n default).defs.flatMap locsOf).length vs.sum, m, 0)
+    let σ : State Loc := ⟨fun _ => 7, fun _ => 0, some 0⟩
+    ∀ k, (run (toProg P sems) k σ).mem = (run (rename (ρ [(257, 256)]) (toProg P sems)) k σ).mem := by
+  intro P sems σ k
+  refine (accepted_preserves_from_entry P [(257, 256)] sems (by decide +kernel) (by decide +kernel) (by decide +kernel)
+    (by decide +kernel) ?_ σ σ rfl rfl rfl (fun _ _ => rfl) k).1
+  intro n i hc vs m
+  simp only [toProg, Option.map_eq_some_iff] at hc
+  obtain ⟨c, hc, rfl⟩ := hc
+  simp [toInstr, sems, hc]
+
+/-! ### `accept-regs`: soundness -/
+
+theorem hasReg_iff (l : List R) (r : R) : hasReg l r = true ↔ r ∈ l := by
+  unfold hasReg
+  simp only [List.any_eq_true, Bool.and_eq_true, beq_iff_eq]
+  constructor
+  · rintro ⟨x, hx, h1, h2⟩
+    have : x = r := by cases x; cases r; simp_all
+    exact this ▸ hx
+  · intro h; exact ⟨r, h, rfl, rfl⟩
+
+/-- **Statement.** The registers the allocator and the verifier are shown for an instruction
+(`Instruction.Registers()`) are exactly the registers of its operands — register operands, and base and index of
+every memory operand — and every address register is declared as read (so it is live up to the instruction). -/
+def RegsOK (c : RInstr) : Prop :=
+  (∀ r, r ∈ c.impl ↔ r ∈ c.own.map (·.1)) ∧
+  ∀ r, (r, false) ∈ c.own → ∀ lane, r.mask.testBit lane = true → mem (ofRegs c.uses) r.id lane = true
+
+theorem checkRegsAt_sound (c : RInstr) (h : checkRegsAt c = true) : RegsOK c := by
+  unfold checkRegsAt at h
+  simp only [Bool.and_eq_true] at h
+  obtain ⟨⟨h1, h2⟩, h3⟩ := h
+  refine ⟨fun r => ⟨fun hr => ?_, fun hr => ?_⟩, ?_⟩
+  · exact (hasReg_iff _ r).mp (List.all_eq_true.mp h2 r hr)
+  · exact (hasReg_iff _ r).mp (List.all_eq_true.mp h1 r hr)
+  · intro r hr lane hb
+    have := List.all_eq_true.mp h3 (r, false) hr
+    simp only [Bool.false_or, coversReg, beq_iff_eq] at this
+    have h4 := congrArg (fun x => x.testBit lane) this
+    simp only [Nat.testBit_and, hb, Bool.and_true] at h4
+    exact h4
+
+/-- Non-vacuity: `VPGATHERDD k, (base)(z_index*4), z` — the vector index register is an address register; an
+implementation whose register list, or whose read set, leaves it out is rejected. (Z1 = 66048, RAX = 256, K1 = 66304) -/
+example :
+    checkRegsAt ⟨[(⟨66304, 15⟩, true), (⟨256, 15⟩, false), (⟨66048, 127⟩, false), (⟨512, 127⟩, true)],
+                 [⟨66304, 15⟩, ⟨256, 15⟩, ⟨66048, 127⟩, ⟨512, 127⟩],
+                 [⟨66304, 15⟩, ⟨256, 15⟩, ⟨66048, 127⟩, ⟨512, 127⟩]⟩ = true ∧
+    checkRegsAt ⟨[(⟨66304, 15⟩, true), (⟨256, 15⟩, false), (⟨66048, 127⟩, false), (⟨512, 127⟩, true)],
+                 [⟨66304, 15⟩, ⟨256, 15⟩, ⟨512, 127⟩],
+                 [⟨66304, 15⟩, ⟨256, 15⟩, ⟨66048, 127⟩, ⟨512, 127⟩]⟩ = false ∧
+    checkRegsAt ⟨[(⟨66304, 15⟩, true), (⟨256, 15⟩, false), (⟨66048, 127⟩, false), (⟨512, 127⟩, true)],
+                 [⟨66304, 15⟩, ⟨256, 15⟩, ⟨66048, 127⟩, ⟨512, 127⟩],
+                 [⟨66304, 15⟩, ⟨256, 15⟩, ⟨512, 127⟩]⟩ = false := by
+  decide +kernel
+
 end Avo.AllocCheck
